@@ -596,27 +596,18 @@ where
   }
 
   fn detach(&self, conn: &mut ClientConn<S, HS, ST>) {
-    tokio::task::block_in_place(|| {
-      tokio::runtime::Handle::current().block_on(async {
-        match conn.shutdown().await {
-          Ok(_) => {
-            debug!(
-              client_id = conn.client_id.as_str(),
-              connection_id = conn.conn_id,
-              service_type = ST::NAME,
-              "detached client connection"
-            )
-          },
-          Err(e) => error!(
-            client_id = conn.client_id.as_str(),
-            connection_id = conn.conn_id,
-            service_type = ST::NAME,
-            "failed to detach client connection: {}",
-            e
-          ),
-        }
-      })
-    });
+    // `detach` is synchronous and also runs on the connection workers' current-thread runtimes, where
+    // blocking on the shutdown panics: signal the connection's tasks to stop and let them wind down
+    // on their own instead of waiting for them here.
+    conn.shutdown_token.cancel();
+    conn.task_tracker.close();
+
+    debug!(
+      client_id = conn.client_id.as_str(),
+      connection_id = conn.conn_id,
+      service_type = ST::NAME,
+      "detached client connection"
+    );
   }
 }
 
